@@ -757,4 +757,758 @@ theorem work_rel (q : Req) (l : Ledger) (outs : List Outcome) (hp : PreW q l) (h
       · exact ih _ _ h1 h2
       · rw [finishWork_bufs]; exact ⟨finish_fail_rel _ _ e h1 h2, h3⟩
 
+theorem cleanup_fields_null (s : St) :
+    (cleanup s).req.path = .null ∧ (cleanup s).req.newPath = false ∧ (cleanup s).req.bufs = .null ∧ (cleanup s).req.ptr = .null := by
+  unfold cleanup
+  simp only []
+  refine ⟨?_, ?_, ?_, ?_⟩ <;> (repeat' split) <;> first | rfl | trivial
+
+theorem rel_null (q : Req) (l : Ledger) (h1 : q.path = .null) (h2 : q.bufs = .null) (h3 : q.ptr = .null)
+    (h4 : l.reqOwned = 0) (h5 : l.badFree = 0) : Rel q l := by
+  obtain ⟨op, cb, path, np, bufs, ptr, res, nb⟩ := q
+  obtain ⟨l1, l2, l3, l4, l5, l6, l7, l8, l9, l10, l11⟩ := l
+  simp only [] at h1 h2 h3 h5
+  simp [Ledger.reqOwned] at h4
+  subst h1 h2 h3 h5
+  obtain ⟨⟨⟨⟨⟨⟨⟨e1, e2⟩, e3⟩, e4⟩, e5⟩, e6⟩, e7⟩, e8⟩ := h4
+  subst e1 e2 e3 e4 e5 e6 e7 e8
+  refine ⟨?_, ?_, ?_, ?_, ?_, ?_, ?_, ?_, ?_, ?_, ?_, ?_, ?_, ?_⟩ <;> simp
+
+theorem cleanup_rel (s : St) (ha : Rel s.req s.l) (hb : s.req.bufs ≠ .user) : Rel (cleanup s).req (cleanup s).l := by
+  obtain ⟨n1, _, n3, n4⟩ := cleanup_fields_null s
+  obtain ⟨c1, c2, _⟩ := cleanup_of_rel s ha hb
+  exact rel_null _ _ n1 n3 n4 c1 c2
+
+theorem cancel_rel (q : Req) (l : Ledger) (hp : PreW q l) (ha : Rel q l) : Rel { q with result := UV_ECANCELED } l := by
+  have := finish_fail_rel q l 125 hp ha
+  simpa [finishWork, UV_ECANCELED] using this
+
+structure UrOk (q : Req) : Prop where
+  r0 : q.result = 0
+  ptr : q.ptr = (if isStat q.op = true then .statx else .null)
+  sub : hasSubmitter q.op = true
+  bufs : q.bufs ≠ .user
+  cb : q.cb = true
+
+theorem cqe_rel (s : St) (res : Int) (ha : Rel s.req s.l) (hu : UrOk s.req) :
+    Rel (cqe s res).1.req (cqe s res).1.l ∧ (cqe s res).1.req.bufs ≠ .user ∧
+    ((cqe s res).1.phase = .queued → PreW (cqe s res).1.req (cqe s res).1.l) ∧
+    ((cqe s res).1.phase = .queued ∨ (cqe s res).1.phase = .done) := by
+  obtain ⟨⟨op, cb, path, np, bufs, ptr, rs, nb⟩, l, ph, ac, rg, cbs, cl⟩ := s
+  obtain ⟨u1, u2, u3, u4, u5⟩ := hu
+  simp only [] at u1 u2 u3 u4 u5 ha
+  subst u1 u5
+  have n1 : op ≠ .readdir := by intro h; subst h; simp [hasSubmitter] at u3
+  have n2 : op ≠ .scandir := by intro h; subst h; simp [hasSubmitter] at u3
+  have n3 : op ≠ .opendir := by intro h; subst h; simp [hasSubmitter] at u3
+  have n4 : op ≠ .closedir := by intro h; subst h; simp [hasSubmitter] at u3
+  have n5 : op ≠ .mkdtemp := by intro h; subst h; simp [hasSubmitter] at u3
+  have n6 : op ≠ .mkstemp := by intro h; subst h; simp [hasSubmitter] at u3
+  obtain ⟨a1, a2, a3, a4, a5, a6, a7, a8, a9, a10, a11, a12, a13, a14⟩ := ha
+  simp only [] at a1 a2 a3 a4 a5 a6 a7 a8 a9 a10 a11 a12 a13 a14
+  by_cases hs : isStat op = true
+  · simp [hs] at u2
+    subst u2
+    simp [n1] at a6 a7 a9 a10
+    clear a8 a11 a12 a13 a14
+    unfold cqe
+    by_cases hr : res = EOPNOTSUPP_neg
+    · subst hr; simp [hs]
+      refine ⟨?_, u4, ?_⟩
+      · refine ⟨?_, ?_, ?_, ?_, ?_, ?_, ?_, ?_, ?_, ?_, ?_, ?_, ?_, ?_⟩ <;> simp [Ledger.free, Ledger.get, Ledger.set, n1, *] <;>
+        (try (intro hh; first | (have h2' := a2 hh; by_cases hk : pathKind op = .two <;> simp_all [pathRole, Ledger.get]; done) | (have h4' := a4 hh; simp_all; done)))
+      · refine ⟨rfl, Or.inl rfl, ?_, ?_, ?_, ?_⟩ <;> simp [n1, n3, n4, u4]
+    · by_cases h0 : res = 0
+      · subst h0; simp [hs, EOPNOTSUPP_neg]
+        refine ⟨?_, u4⟩
+        refine ⟨?_, ?_, ?_, ?_, ?_, ?_, ?_, ?_, ?_, ?_, ?_, ?_, ?_, ?_⟩ <;> simp [Ledger.free, Ledger.get, Ledger.set, n1, n2, *] <;>
+        (try (intro hh; first | (have h2' := a2 hh; by_cases hk : pathKind op = .two <;> simp_all [pathRole, Ledger.get]; done) | (have h4' := a4 hh; simp_all; done)))
+      · simp [hr, hs, h0]
+        refine ⟨?_, u4⟩
+        refine ⟨?_, ?_, ?_, ?_, ?_, ?_, ?_, ?_, ?_, ?_, ?_, ?_, ?_, ?_⟩ <;> simp [Ledger.free, Ledger.get, Ledger.set, n1, n2, *] <;>
+        (try (intro hh; first | (have h2' := a2 hh; by_cases hk : pathKind op = .two <;> simp_all [pathRole, Ledger.get]; done) | (have h4' := a4 hh; simp_all; done)))
+  · simp [hs] at u2
+    subst u2
+    simp [n1] at a6 a7 a9 a10
+    clear a8 a11 a12 a13 a14
+    unfold cqe
+    by_cases hr : res = EOPNOTSUPP_neg
+    · subst hr; simp [hs]
+      refine ⟨?_, u4, ?_⟩
+      · refine ⟨?_, ?_, ?_, ?_, ?_, ?_, ?_, ?_, ?_, ?_, ?_, ?_, ?_, ?_⟩ <;> simp [n1, *] <;>
+        (try (intro hh; first | (have h2' := a2 hh; by_cases hk : pathKind op = .two <;> simp_all [pathRole, Ledger.get]; done) | (have h4' := a4 hh; simp_all; done)))
+      · refine ⟨rfl, Or.inl rfl, ?_, ?_, ?_, ?_⟩ <;> simp [n1, n3, n4, u4]
+    · simp [hr, hs]
+      refine ⟨?_, u4⟩
+      refine ⟨?_, ?_, ?_, ?_, ?_, ?_, ?_, ?_, ?_, ?_, ?_, ?_, ?_, ?_⟩ <;> simp [n1, n2, *] <;>
+        (try (intro hh; first | (have h2' := a2 hh; by_cases hk : pathKind op = .two <;> simp_all [pathRole, Ledger.get]; done) | (have h4' := a4 hh; simp_all; done)))
+
+/-- the ledger invariant of the state machine -/
+structure LInv (a : Args) (s : St) : Prop where
+  idle : s.phase = .idle → s = init a
+  rel : s.phase ≠ .idle → Rel s.req s.l
+  pre : s.phase = .queued ∨ s.phase = .cancelled → PreW s.req s.l
+  ur : s.phase = .uring → UrOk s.req
+  bufs : s.phase ≠ .idle → s.req.bufs ≠ .user
+
+theorem tmpl_ops (op : Op) (h : pathKind op = .tmpl) : op = .mkdtemp ∨ op = .mkstemp := by
+  cases op <;> simp [pathKind] at h ⊢
+
+set_option hygiene false in
+macro "cp_fin" : tactic => `(tactic|
+  (refine ⟨⟨?_, ?_, ?_, ?_, ?_, ?_, ?_, ?_, ?_, ?_, ?_, ?_, ?_, ?_⟩, ?_, ?_, ?_, ?_, ?_, ?_, ?_⟩ <;>
+    (try simp [Ledger.alloc, Ledger.get, Ledger.set, pathRole, heq, *])))
+
+theorem copyPaths_spec (a : Args) (l0 : Ledger) (h0 : l0.reqOwned = 0) (hb : l0.badFree = 0) (q1 : Req) (l1 : Ledger)
+    (h : copyPaths a (initReq a) l0 = some (q1, l1)) :
+    Rel q1 l1 ∧ q1.op = a.op ∧ q1.cb = a.cb ∧ q1.bufs = .null ∧ q1.ptr = .null ∧ q1.result = 0 ∧
+    l1.dir = l0.dir ∧ l1.dirstream = l0.dirstream := by
+  obtain ⟨m1, m2, m3, m4, m5, m6, m7, m8, m9, m10, m11⟩ := l0
+  simp only [] at hb
+  simp [Ledger.reqOwned] at h0
+  obtain ⟨⟨⟨⟨⟨⟨⟨e1, e2⟩, e3⟩, e4⟩, e5⟩, e6⟩, e7⟩, e8⟩ := h0
+  subst e1 e2 e3 e4 e5 e6 e7 e8 hb
+  unfold copyPaths at h
+  split at h
+  · rename_i heq
+    simp at h; obtain ⟨hq, hl⟩ := h; subst hq hl
+    simp only [initReq]
+    cp_fin
+  · rename_i heq
+    have hm : a.op ≠ .mkdtemp ∧ a.op ≠ .mkstemp := by
+      constructor <;> (intro hh; rw [hh] at heq; simp [pathKind] at heq)
+    split at h
+    · rename_i hc
+      simp at h hc; obtain ⟨hq, hl⟩ := h; subst hq hl
+      simp only [initReq]
+      cp_fin
+    · rename_i hc
+      simp at hc
+      split at h
+      · simp at h
+      · simp at h; obtain ⟨hq, hl⟩ := h; subst hq hl
+        simp only [initReq]
+        cp_fin
+  · rename_i heq
+    have hm : a.op ≠ .mkdtemp ∧ a.op ≠ .mkstemp := by
+      constructor <;> (intro hh; rw [hh] at heq; simp [pathKind] at heq)
+    split at h
+    · rename_i hc
+      simp at h hc; obtain ⟨hq, hl⟩ := h; subst hq hl
+      simp only [initReq]
+      cp_fin
+    · rename_i hc
+      simp at hc
+      split at h
+      · simp at h
+      · simp at h; obtain ⟨hq, hl⟩ := h; subst hq hl
+        simp only [initReq]
+        cp_fin
+  · rename_i heq
+    have hm := tmpl_ops a.op heq
+    split at h
+    · simp at h
+    · simp at h; obtain ⟨hq, hl⟩ := h; subst hq hl
+      simp only [initReq]
+      cp_fin
+
+set_option hygiene false in
+macro "cb_fin" : tactic => `(tactic|
+  (refine ⟨⟨?_, ?_, ?_, ?_, ?_, ?_, ?_, ?_, ?_, ?_, ?_, ?_, ?_, ?_⟩, ⟨?_, ?_, ?_, ?_, ?_, ?_⟩, ?_, ?_, ?_⟩ <;>
+    (try simp [Ledger.alloc, Ledger.get, Ledger.set, heq, *]) <;>
+    (try assumption) <;>
+    (try (intro hh; first
+      | (have h2' := a2 hh; by_cases hk : pathKind a.op = .two <;> simp_all [pathRole, Ledger.get, Ledger.alloc, Ledger.set]; done)
+      | (have h4' := a4 hh; simp_all; done))) <;>
+    (try (simp_all; done))))
+
+theorem copyBufs_spec (a : Args) (q1 : Req) (l1 : Ledger) (ha : Rel q1 l1) (ho : q1.op = a.op) (hc : q1.cb = a.cb)
+    (hbn : q1.bufs = .null) (hpn : q1.ptr = .null) (hr : q1.result = 0)
+    (hd : (a.op = .readdir ∨ a.op = .closedir) → l1.dir = 1 ∧ l1.dirstream = 1)
+    (hod : a.op = .opendir → l1.dir = 0 ∧ l1.dirstream = 0)
+    (q2 : Req) (l2 : Ledger) (h : copyBufs a q1 l1 = some (q2, l2)) :
+    Rel q2 l2 ∧ PreW q2 l2 ∧ q2.op = a.op ∧ q2.cb = a.cb ∧ (q2.bufs = .user → a.cb = false) := by
+  obtain ⟨op, cb, path, np, bufs, ptr, res, nb⟩ := q1
+  simp only [] at ho hc hbn hpn hr
+  subst hbn hpn hr
+  obtain ⟨a1, a2, a3, a4, a5, a6, a7, a8, a9, a10, a11, a12, a13, a14⟩ := ha
+  simp only [] at a1 a2 a3 a4 a5 a6 a7 a8 a9 a10 a11 a12 a13 a14
+  simp at a5 a6 a7 a9 a10
+  clear a8 a11 a12 a13 a14
+  subst ho hc
+  unfold copyBufs at h
+  split at h
+  · rename_i heq
+    try simp only [] at heq
+    split at h
+    · rename_i hcb
+      simp at h hcb; obtain ⟨hq, hl⟩ := h; subst hq hl
+      cb_fin
+    · rename_i hcb
+      simp at hcb
+      split at h
+      · split at h
+        · simp at h
+        · simp at h; obtain ⟨hq, hl⟩ := h; subst hq hl
+          cb_fin
+      · simp at h; obtain ⟨hq, hl⟩ := h; subst hq hl
+        cb_fin
+  · rename_i heq
+    try simp only [] at heq
+    split at h
+    · split at h
+      · simp at h
+      · simp at h; obtain ⟨hq, hl⟩ := h; subst hq hl
+        cb_fin
+    · simp at h; obtain ⟨hq, hl⟩ := h; subst hq hl
+      cb_fin
+  · rename_i heq
+    try simp only [] at heq
+    simp at h; obtain ⟨hq, hl⟩ := h; subst hq hl
+    have := hd (Or.inl heq)
+    cb_fin
+  · rename_i heq
+    try simp only [] at heq
+    simp at h; obtain ⟨hq, hl⟩ := h; subst hq hl
+    have := hd (Or.inr heq)
+    cb_fin
+  · have heq : True := trivial
+    simp at h; obtain ⟨hq, hl⟩ := h; subst hq hl
+    cb_fin
+
+theorem rel_statx (q : Req) (l : Ledger) (ha : Rel q l) (hp : q.ptr = .null) (hs : isStat q.op = true) :
+    Rel { q with ptr := .statx } (l.alloc .statx 1) := by
+  obtain ⟨op, cb, path, np, bufs, ptr, res, nb⟩ := q
+  simp only [] at hp hs
+  subst hp
+  have n1 : op ≠ .readdir := by intro h; subst h; simp [isStat] at hs
+  have n2 : op ≠ .scandir := by intro h; subst h; simp [isStat] at hs
+  have n3 : op ≠ .opendir := by intro h; subst h; simp [isStat] at hs
+  have n4 : op ≠ .closedir := by intro h; subst h; simp [isStat] at hs
+  obtain ⟨a1, a2, a3, a4, a5, a6, a7, a8, a9, a10, a11, a12, a13, a14⟩ := ha
+  simp only [] at a1 a2 a3 a4 a5 a6 a7 a8 a9 a10 a11 a12 a13 a14
+  simp [n1] at a6 a7 a9 a10
+  clear a8 a11 a12 a13 a14
+  refine ⟨?_, ?_, ?_, ?_, ?_, ?_, ?_, ?_, ?_, ?_, ?_, ?_, ?_, ?_⟩ <;> simp [Ledger.alloc, Ledger.get, Ledger.set, n1, n2, n3, n4, *] <;>
+    (try (intro hh; first
+      | (have h2' := a2 hh; by_cases hk : pathKind op = .two <;> simp_all [pathRole, Ledger.get, Ledger.alloc, Ledger.set]; done)
+      | (have h4' := a4 hh; simp_all; done)))
+
+theorem submit_linv (a : Args) : LInv a (submit a (init a)).1 := by
+  have hL0 : (init a).l.reqOwned = 0 ∧ (init a).l.badFree = 0 := by
+    simp only [init]; split <;> simp [Ledger.reqOwned, Ledger.empty]
+  unfold submit
+  simp only []
+  split
+  · refine ⟨?_, ?_, ?_, ?_, ?_⟩ <;> simp
+    · exact rel_null _ _ rfl rfl rfl hL0.1 hL0.2
+    · simp [initReq]
+  · rename_i hchk
+    split
+    · refine ⟨?_, ?_, ?_, ?_, ?_⟩ <;> simp
+      · exact rel_null _ _ rfl rfl rfl hL0.1 hL0.2
+      · simp [initReq]
+    · rename_i q1 l1 hcp
+      obtain ⟨r1, o1, c1, b1, p1, z1, d1, d2⟩ := copyPaths_spec a _ hL0.1 hL0.2 q1 l1 hcp
+      have hd : (a.op = .readdir ∨ a.op = .closedir) → l1.dir = 1 ∧ l1.dirstream = 1 := by
+        intro hh
+        have hc : hasArgCheck a.op = true := by rcases hh with hh | hh <;> simp [hh, hasArgCheck]
+        have hao : a.argsOk = true := by simpa [hc] using hchk
+        rw [d1, d2]; simp [init, hh, hao]
+      have hod : a.op = .opendir → l1.dir = 0 ∧ l1.dirstream = 0 := by
+        intro hh
+        rw [d1, d2]; simp [init, hh, Ledger.empty]
+      split
+      · refine ⟨?_, ?_, ?_, ?_, ?_⟩ <;> simp
+        · exact r1
+        · simp [b1]
+      · rename_i q2 l2 hcb
+        obtain ⟨r2, w2, o2, c2, u2⟩ := copyBufs_spec a q1 l1 r1 o1 c1 b1 p1 z1 hd hod q2 l2 hcb
+        split
+        · rename_i hur
+          simp at hur
+          obtain ⟨⟨hcb1, hsub⟩, hring⟩ := hur
+          have hnu : q2.bufs ≠ .user := fun hh => by have := u2 hh; simp [hcb1] at this
+          have hpn : q2.ptr = .null := by
+            rcases w2.ptr with hh | hh
+            · exact hh
+            · rcases w2.dirOp.mp hh with h' | h' <;> (rw [o2] at h'; rw [h'] at hsub; simp [hasSubmitter] at hsub)
+          by_cases hs : isStat a.op = true
+          · simp [hs]
+            refine ⟨?_, ?_, ?_, ?_, ?_⟩ <;> simp
+            · exact rel_statx q2 l2 r2 hpn (by rw [o2]; exact hs)
+            · exact ⟨w2.res0, by simp [o2, hs], by rw [o2]; exact hsub, hnu, by rw [c2]; exact hcb1⟩
+            · exact hnu
+          · simp [hs]
+            refine ⟨?_, ?_, ?_, ?_, ?_⟩ <;> simp
+            · exact r2
+            · exact ⟨w2.res0, by simp [o2, hs, hpn], by rw [o2]; exact hsub, hnu, by rw [c2]; exact hcb1⟩
+            · exact hnu
+        · split
+          · rename_i hcb1
+            have hnu : q2.bufs ≠ .user := fun hh => by have := u2 hh; simp [hcb1] at this
+            refine ⟨?_, ?_, ?_, ?_, ?_⟩ <;> simp
+            · exact r2
+            · exact w2
+            · exact hnu
+          · obtain ⟨x1, x2⟩ := work_rel q2 l2 a.outs w2 r2
+            refine ⟨?_, ?_, ?_, ?_, ?_⟩ <;> simp
+            · exact x1
+            · exact x2
+
+theorem linv_init (a : Args) : LInv a (init a) := by
+  refine ⟨fun _ => rfl, ?_, ?_, ?_, ?_⟩ <;> simp [init]
+
+theorem linv_step (a : Args) (s : St) (e : Ev) (h : LInv a s) : LInv a (step a s e).1 := by
+  obtain ⟨h1, h2, h3, h4, h5⟩ := h
+  cases e with
+  | submit =>
+    rw [step_submit]
+    split
+    · rename_i hp
+      rw [h1 hp]
+      exact submit_linv a
+    · exact ⟨h1, h2, h3, h4, h5⟩
+  | cancel =>
+    rw [step_cancel]
+    split
+    · rename_i hp
+      have hq : s.phase ≠ .idle := by simp [hp]
+      refine ⟨?_, ?_, ?_, ?_, ?_⟩ <;> simp
+      · exact h2 hq
+      · exact h3 (Or.inl hp)
+      · exact h5 hq
+    all_goals exact ⟨h1, h2, h3, h4, h5⟩
+  | work outs =>
+    rw [step_work]
+    split
+    · rename_i hp
+      have hq : s.phase ≠ .idle := by simp [hp]
+      obtain ⟨w1, w2⟩ := work_rel s.req s.l outs (h3 (Or.inl hp)) (h2 hq)
+      refine ⟨?_, ?_, ?_, ?_, ?_⟩ <;> simp
+      · exact w1
+      · exact w2
+    · exact ⟨h1, h2, h3, h4, h5⟩
+  | done =>
+    rw [step_done]
+    split
+    · rename_i hp
+      have hq : s.phase ≠ .idle := by simp [hp]
+      refine ⟨?_, ?_, ?_, ?_, ?_⟩ <;> simp [fsDone]
+      · exact h2 hq
+      · exact h5 hq
+    · rename_i hp
+      have hq : s.phase ≠ .idle := by simp [hp]
+      refine ⟨?_, ?_, ?_, ?_, ?_⟩ <;> simp [fsDone]
+      · exact cancel_rel _ _ (h3 (Or.inr hp)) (h2 hq)
+      · exact h5 hq
+    · exact ⟨h1, h2, h3, h4, h5⟩
+  | cqe res =>
+    rw [step_cqe]
+    split
+    · rename_i hp
+      have hq : s.phase ≠ .idle := by simp [hp]
+      obtain ⟨c1, c2, c3, c4⟩ := cqe_rel s res (h2 hq) (h4 hp)
+      refine ⟨?_, fun _ => c1, ?_, ?_, fun _ => c2⟩
+      · intro hi; rcases c4 with c | c <;> simp [c] at hi
+      · intro hi
+        rcases hi with hi | hi
+        · exact c3 hi
+        · rcases c4 with c | c <;> simp [c] at hi
+      · intro hi; rcases c4 with c | c <;> simp [c] at hi
+    · exact ⟨h1, h2, h3, h4, h5⟩
+  | next =>
+    rw [step_next]
+    split
+    · rename_i hp
+      have hq : s.phase ≠ .idle := by simp [hp.1]
+      obtain ⟨n1, n2⟩ := next_rel s (h2 hq) hp.2
+      have hph := (next_result s).2
+      refine ⟨?_, fun _ => n1, ?_, ?_, ?_⟩
+      · intro hi; rw [hph, hp.1] at hi; simp at hi
+      · intro hi; rw [hph, hp.1] at hi; simp at hi
+      · intro hi; rw [hph, hp.1] at hi; simp at hi
+      · intro _; rw [n2]; exact h5 hq
+    · exact ⟨h1, h2, h3, h4, h5⟩
+  | cleanup =>
+    rw [step_cleanup]
+    split
+    · rename_i hp
+      have hq : s.phase ≠ .idle := by rcases hp with hp | hp <;> simp [hp]
+      have hph := (cleanup_result s).2
+      refine ⟨?_, fun _ => cleanup_rel s (h2 hq) (h5 hq), ?_, ?_, ?_⟩
+      · intro hi; simp only [] at hi; rw [hph] at hi; exact absurd hi hq
+      · intro hi; simp only [] at hi; rw [hph] at hi; rcases hp with hp | hp <;> simp [hp] at hi
+      · intro hi; simp only [] at hi; rw [hph] at hi; rcases hp with hp | hp <;> simp [hp] at hi
+      · intro _; simp only []; rw [(cleanup_fields_null s).2.2.1]; simp
+    · exact ⟨h1, h2, h3, h4, h5⟩
+
+theorem linv_run (a : Args) (evs : List Ev) : LInv a (run a evs) :=
+  run_induct a (LInv a) (linv_init a) (fun s e h => linv_step a s e h) evs
+
+/-- the value `req->path` has from the front end until cleanup -/
+def pathVal (a : Args) : PathF :=
+  match pathKind a.op with
+  | .none => .null
+  | .tmpl => .heap
+  | _ => if a.cb then .heap else .user
+
+theorem attempt_frame (q : Req) (l : Ledger) (o : Outcome) :
+    (attempt q l o).1.path = q.path ∧ (attempt q l o).1.cb = q.cb := by
+  unfold attempt
+  split <;> (constructor <;> (repeat' split) <;> rfl)
+
+theorem finishWork_frame (q : Req) (o : Outcome) : (finishWork q o).path = q.path ∧ (finishWork q o).cb = q.cb := by
+  cases o <;> exact ⟨rfl, rfl⟩
+
+theorem work_frame (q : Req) (l : Ledger) (outs : List Outcome) :
+    (work q l outs).1.path = q.path ∧ (work q l outs).1.cb = q.cb := by
+  induction outs generalizing q l with
+  | nil =>
+    rw [work_nil]
+    simp only [(finishWork_frame _ _).1, (finishWork_frame _ _).2, (attempt_frame _ _ _).1, (attempt_frame _ _ _).2]
+    exact ⟨trivial, trivial⟩
+  | cons o rest ih =>
+    rw [work_cons]
+    split
+    · split
+      · rw [(ih _ _).1, (ih _ _).2, (attempt_frame _ _ _).1, (attempt_frame _ _ _).2]; exact ⟨rfl, rfl⟩
+      · simp only [(finishWork_frame _ _).1, (finishWork_frame _ _).2, (attempt_frame _ _ _).1, (attempt_frame _ _ _).2]
+        exact ⟨trivial, trivial⟩
+    · simp only [(finishWork_frame _ _).1, (finishWork_frame _ _).2, (attempt_frame _ _ _).1, (attempt_frame _ _ _).2]
+      exact ⟨trivial, trivial⟩
+
+theorem copyPaths_path (a : Args) (l0 : Ledger) (q1 : Req) (l1 : Ledger)
+    (h : copyPaths a (initReq a) l0 = some (q1, l1)) : q1.path = pathVal a := by
+  unfold copyPaths at h
+  unfold pathVal
+  split at h <;> rename_i heq <;> simp only [heq]
+  · simp at h; rw [← h.1]; rfl
+  · split at h
+    · rename_i hc; simp at h hc; rw [← h.1]; simp [hc]
+    · rename_i hc; simp at hc
+      split at h
+      · simp at h
+      · simp at h; rw [← h.1]; simp [hc]
+  · split at h
+    · rename_i hc; simp at h hc; rw [← h.1]; simp [hc]
+    · rename_i hc; simp at hc
+      split at h
+      · simp at h
+      · simp at h; rw [← h.1]; simp [hc]
+  · split at h
+    · simp at h
+    · simp at h; rw [← h.1]
+
+theorem copyBufs_path (a : Args) (q1 : Req) (l1 : Ledger) (q2 : Req) (l2 : Ledger)
+    (h : copyBufs a q1 l1 = some (q2, l2)) : q2.path = q1.path := by
+  unfold copyBufs at h
+  split at h <;> (repeat' split at h) <;> simp at h <;> (try (rw [← h.1]))
+
+theorem copyBufs_opcb (a : Args) (q1 : Req) (l1 : Ledger) (q2 : Req) (l2 : Ledger)
+    (h : copyBufs a q1 l1 = some (q2, l2)) : q2.op = q1.op ∧ q2.cb = q1.cb := by
+  unfold copyBufs at h
+  split at h <;> (repeat' split at h) <;> simp at h <;> (try (rw [← h.1])) <;> exact ⟨rfl, rfl⟩
+
+theorem copyPaths_opcb (a : Args) (l0 : Ledger) (q1 : Req) (l1 : Ledger)
+    (h : copyPaths a (initReq a) l0 = some (q1, l1)) : q1.op = a.op ∧ q1.cb = a.cb := by
+  unfold copyPaths at h
+  split at h <;> (repeat' split at h) <;> simp at h <;> (try (rw [← h.1])) <;> exact ⟨rfl, rfl⟩
+
+structure PInv (a : Args) (s : St) : Prop where
+  idle : s.phase = .idle → s = init a
+  oc : s.phase ≠ .idle → s.req.op = a.op ∧ s.req.cb = a.cb
+  pv : s.phase ≠ .idle → s.phase ≠ .rejected → s.cleaned = false → s.req.path = pathVal a
+  pn : s.phase ≠ .idle → s.req.path = pathVal a ∨ s.req.path = .null
+
+theorem submit_pinv (a : Args) : PInv a (submit a (init a)).1 := by
+  unfold submit
+  simp only []
+  split
+  · refine ⟨?_, ?_, ?_, ?_⟩ <;> simp [initReq]
+  · split
+    · refine ⟨?_, ?_, ?_, ?_⟩ <;> simp [initReq]
+    · rename_i q1 l1 hcp
+      have p1 := copyPaths_path a _ q1 l1 hcp
+      obtain ⟨o1, c1⟩ := copyPaths_opcb a _ q1 l1 hcp
+      split
+      · refine ⟨?_, ?_, ?_, ?_⟩ <;> simp [*]
+      · rename_i q2 l2 hcb
+        have p2 := copyBufs_path a q1 l1 q2 l2 hcb
+        obtain ⟨o2, c2⟩ := copyBufs_opcb a q1 l1 q2 l2 hcb
+        split
+        · by_cases hs : isStat a.op = true <;> simp [hs] <;>
+            (refine ⟨?_, ?_, ?_, ?_⟩ <;> simp [init, *])
+        · split
+          · refine ⟨?_, ?_, ?_, ?_⟩ <;> simp [init, *]
+          · refine ⟨?_, ?_, ?_, ?_⟩ <;> simp [init, work_op, (work_frame _ _ _).1, (work_frame _ _ _).2, *]
+
+theorem cqe_frame (s : St) (res : Int) :
+    (cqe s res).1.req.path = s.req.path ∧ (cqe s res).1.req.op = s.req.op ∧ (cqe s res).1.req.cb = s.req.cb ∧
+    (cqe s res).1.cleaned = s.cleaned ∧ ((cqe s res).1.phase = .queued ∨ (cqe s res).1.phase = .done) := by
+  unfold cqe
+  simp only []
+  refine ⟨?_, ?_, ?_, ?_, ?_⟩ <;> (repeat' split) <;> simp
+
+theorem next_frame (s : St) :
+    (scandirNext s).1.req.path = s.req.path ∧ (scandirNext s).1.req.op = s.req.op ∧ (scandirNext s).1.req.cb = s.req.cb ∧
+    (scandirNext s).1.cleaned = s.cleaned := by
+  unfold scandirNext
+  simp only []
+  refine ⟨?_, ?_, ?_, ?_⟩ <;> (repeat' split) <;> first | rfl | trivial
+
+theorem cleanup_frame (s : St) : (cleanup s).req.op = s.req.op ∧ (cleanup s).req.cb = s.req.cb := by
+  unfold cleanup
+  simp only []
+  refine ⟨?_, ?_⟩ <;> (repeat' split) <;> first | rfl | trivial
+
+theorem pinv_step (a : Args) (s : St) (e : Ev) (h : PInv a s) : PInv a (step a s e).1 := by
+  obtain ⟨h1, h2, h3, h4⟩ := h
+  cases e with
+  | submit =>
+    rw [step_submit]
+    split
+    · rename_i hp; rw [h1 hp]; exact submit_pinv a
+    · exact ⟨h1, h2, h3, h4⟩
+  | cancel =>
+    rw [step_cancel]
+    split
+    · rename_i hp
+      have hq : s.phase ≠ .idle := by simp [hp]
+      refine ⟨?_, ?_, ?_, ?_⟩ <;> simp
+      · exact h2 hq
+      · exact h3 hq (by simp [hp])
+      · exact h4 hq
+    all_goals exact ⟨h1, h2, h3, h4⟩
+  | work outs =>
+    rw [step_work]
+    split
+    · rename_i hp
+      have hq : s.phase ≠ .idle := by simp [hp]
+      refine ⟨?_, ?_, ?_, ?_⟩ <;> simp [work_op, (work_frame _ _ _).1, (work_frame _ _ _).2]
+      · exact h2 hq
+      · exact h3 hq (by simp [hp])
+      · exact h4 hq
+    · exact ⟨h1, h2, h3, h4⟩
+  | done =>
+    rw [step_done]
+    split
+    · rename_i hp
+      have hq : s.phase ≠ .idle := by simp [hp]
+      refine ⟨?_, ?_, ?_, ?_⟩ <;> simp [fsDone]
+      · exact h2 hq
+      · exact h3 hq (by simp [hp])
+      · exact h4 hq
+    · rename_i hp
+      have hq : s.phase ≠ .idle := by simp [hp]
+      refine ⟨?_, ?_, ?_, ?_⟩ <;> simp [fsDone]
+      · exact h2 hq
+      · exact h3 hq (by simp [hp])
+      · exact h4 hq
+    · exact ⟨h1, h2, h3, h4⟩
+  | cqe res =>
+    rw [step_cqe]
+    split
+    · rename_i hp
+      have hq : s.phase ≠ .idle := by simp [hp]
+      obtain ⟨f1, f2, f3, f4, f5⟩ := cqe_frame s res
+      refine ⟨?_, ?_, ?_, ?_⟩
+      · intro hi; rcases f5 with c | c <;> simp [c] at hi
+      · intro _; rw [f2, f3]; exact h2 hq
+      · intro _ _ hc; rw [f1]; rw [f4] at hc; exact h3 hq (by simp [hp]) hc
+      · intro _; rw [f1]; exact h4 hq
+    · exact ⟨h1, h2, h3, h4⟩
+  | next =>
+    rw [step_next]
+    split
+    · rename_i hp
+      have hq : s.phase ≠ .idle := by simp [hp.1]
+      obtain ⟨f1, f2, f3, f4⟩ := next_frame s
+      have hph := (next_result s).2
+      refine ⟨?_, ?_, ?_, ?_⟩
+      · intro hi; rw [hph, hp.1] at hi; simp at hi
+      · intro _; rw [f2, f3]; exact h2 hq
+      · intro _ _ hc; rw [f1]; rw [f4] at hc; exact h3 hq (by simp [hp.1]) hc
+      · intro _; rw [f1]; exact h4 hq
+    · exact ⟨h1, h2, h3, h4⟩
+  | cleanup =>
+    rw [step_cleanup]
+    split
+    · rename_i hp
+      have hq : s.phase ≠ .idle := by rcases hp with hp | hp <;> simp [hp]
+      have hph := (cleanup_result s).2
+      obtain ⟨f2, f3⟩ := cleanup_frame s
+      refine ⟨?_, ?_, ?_, ?_⟩
+      · intro hi; simp only [] at hi; rw [hph] at hi; exact absurd hi hq
+      · intro _; simp only []; rw [f2, f3]; exact h2 hq
+      · intro _ _ hc; simp only [] at hc; rw [cleanup_cleaned] at hc; simp at hc
+      · intro _; simp only []; right; exact (cleanup_fields_null s).1
+    · exact ⟨h1, h2, h3, h4⟩
+
+theorem pinv_run (a : Args) (evs : List Ev) : PInv a (run a evs) :=
+  run_induct a (PInv a) ⟨fun _ => rfl, by simp [init], by simp [init], by simp [init]⟩ (fun s e h => pinv_step a s e h) evs
+
+theorem attempt_stat (q : Req) (l : Ledger) (o : Outcome) (hs : isStat q.op = true) : attempt q l o = (q, l, o) := by
+  unfold attempt
+  split <;> simp_all [isStat]
+
+theorem work_stat (q : Req) (l : Ledger) (outs : List Outcome) (hs : isStat q.op = true) (hp : q.ptr = .null)
+    (hnz : Outcome.fail 0 ∉ outs) :
+    (work q l outs).1.ptr = if (work q l outs).1.result = 0 then .statbuf else .null := by
+  induction outs generalizing q l with
+  | nil =>
+    rw [work_nil, attempt_stat q l _ hs]
+    simp [finishWork, hp, FsBuf.EIO]
+  | cons o rest ih =>
+    rw [work_cons, attempt_stat q l _ hs]
+    simp only []
+    cases o with
+    | ok n =>
+      simp only [finishWork]
+      by_cases hn : n = 0
+      · simp [hn, hs]
+      · simp [hn, hp]
+    | fail e =>
+      simp only []
+      split
+      · exact ih q l hs hp (fun h => hnz (List.mem_cons_of_mem _ h))
+      · have he : e ≠ 0 := by
+          intro h; subst h; exact hnz (List.mem_cons_self ..)
+        simp [finishWork, hp]; omega
+
+theorem run_induct_mem (a : Args) (P : St → Prop) (evs : List Ev) (h0 : P (init a))
+    (hstep : ∀ s e, e ∈ evs → P s → P (step a s e).1) : P (run a evs) := by
+  unfold run
+  suffices h : ∀ (es : List Ev) (s : St), (∀ e, e ∈ es → e ∈ evs) → P s → P (runFrom a s es) from h evs _ (fun _ h => h) h0
+  intro es
+  induction es with
+  | nil => intro s _ h; exact h
+  | cons e es ih =>
+    intro s hm h
+    exact ih _ (fun e' he' => hm e' (List.mem_cons_of_mem _ he')) (hstep s e (hm e (List.mem_cons_self ..)) h)
+
+def SInv (a : Args) (s : St) : Prop :=
+  (s.phase = .worked ∨ s.phase = .done) → s.cleaned = false →
+  s.req.ptr = (if s.req.result = 0 then .statbuf else .null)
+
+theorem stat_not_dirop (op : Op) (hs : isStat op = true) : op ≠ .readdir ∧ op ≠ .closedir ∧ op ≠ .scandir := by
+  cases op <;> simp [isStat] at hs ⊢
+
+theorem submit_sinv (a : Args) (hs : isStat a.op = true) (hnz : Outcome.fail 0 ∉ a.outs) : SInv a (submit a (init a)).1 := by
+  have hL0 : (init a).l.reqOwned = 0 ∧ (init a).l.badFree = 0 := by
+    simp only [init]; split <;> simp [Ledger.reqOwned, Ledger.empty]
+  have hn := stat_not_dirop a.op hs
+  unfold submit
+  simp only []
+  split
+  · intro hp; simp at hp
+  · split
+    · intro hp; simp at hp
+    · rename_i q1 l1 hcp
+      obtain ⟨r1, o1, c1, b1, p1, z1, d1, d2⟩ := copyPaths_spec a _ hL0.1 hL0.2 q1 l1 hcp
+      split
+      · intro hp; simp at hp
+      · rename_i q2 l2 hcb
+        have hd : (a.op = .readdir ∨ a.op = .closedir) → l1.dir = 1 ∧ l1.dirstream = 1 := by
+          intro hh; rcases hh with hh | hh
+          · exact absurd hh hn.1
+          · exact absurd hh hn.2.1
+        have hod : a.op = .opendir → l1.dir = 0 ∧ l1.dirstream = 0 := by
+          intro hh; rw [hh] at hs; simp [isStat] at hs
+        obtain ⟨r2, w2, o2, c2, u2⟩ := copyBufs_spec a q1 l1 r1 o1 c1 b1 p1 z1 hd hod q2 l2 hcb
+        have hpn : q2.ptr = .null := by
+          rcases w2.ptr with hh | hh
+          · exact hh
+          · rcases w2.dirOp.mp hh with h' | h' <;> rw [o2] at h'
+            · exact absurd h' hn.1
+            · exact absurd h' hn.2.1
+        split
+        · by_cases hs' : isStat a.op = true <;> simp [hs'] <;> (intro hp; simp at hp)
+        · split
+          · intro hp; simp at hp
+          · intro _ _
+            exact work_stat q2 l2 a.outs (by rw [o2]; exact hs) hpn hnz
+
+theorem sinv_step (a : Args) (hs : isStat a.op = true) (s : St) (e : Ev)
+    (hnz0 : Outcome.fail 0 ∉ a.outs) (hnz : ∀ os, e = .work os → Outcome.fail 0 ∉ os)
+    (hL : LInv a s) (hP : PInv a s) (h : SInv a s) : SInv a (step a s e).1 := by
+  have hn := stat_not_dirop a.op hs
+  cases e with
+  | submit =>
+    rw [step_submit]
+    split
+    · rename_i hp; rw [hP.idle hp]; exact submit_sinv a hs hnz0
+    · exact h
+  | cancel =>
+    rw [step_cancel]
+    split
+    · intro hp; simp at hp
+    all_goals exact h
+  | work outs =>
+    rw [step_work]
+    split
+    · rename_i hp
+      have hq : s.phase ≠ .idle := by simp [hp]
+      have w := hL.pre (Or.inl hp)
+      have ho := (hP.oc hq).1
+      have hpn : s.req.ptr = .null := by
+        rcases w.ptr with hh | hh
+        · exact hh
+        · rcases w.dirOp.mp hh with h' | h' <;> rw [ho] at h'
+          · exact absurd h' hn.1
+          · exact absurd h' hn.2.1
+      intro _ _
+      exact work_stat s.req s.l outs (by rw [ho]; exact hs) hpn (hnz outs rfl)
+    · exact h
+  | done =>
+    rw [step_done]
+    split
+    · rename_i hp
+      intro _ hc
+      exact h (Or.inl hp) hc
+    · rename_i hp
+      have hq : s.phase ≠ .idle := by simp [hp]
+      have w := hL.pre (Or.inr hp)
+      have ho := (hP.oc hq).1
+      have hpn : s.req.ptr = .null := by
+        rcases w.ptr with hh | hh
+        · exact hh
+        · rcases w.dirOp.mp hh with h' | h' <;> rw [ho] at h'
+          · exact absurd h' hn.1
+          · exact absurd h' hn.2.1
+      intro _ _
+      simp [fsDone, hpn, UV_ECANCELED]
+    · exact h
+  | cqe res =>
+    rw [step_cqe]
+    split
+    · rename_i hp
+      have hq : s.phase ≠ .idle := by simp [hp]
+      have ho := (hP.oc hq).1
+      have hs' : isStat s.req.op = true := by rw [ho]; exact hs
+      unfold cqe
+      simp only []
+      split
+      · intro hp'; simp at hp'
+      · intro _ _
+        simp [hs']
+    · exact h
+  | next =>
+    rw [step_next]
+    split
+    · rename_i hp
+      have hq : s.phase ≠ .idle := by simp [hp.1]
+      have ho := (hP.oc hq).1
+      rw [hp.2] at ho
+      exact absurd ho.symm hn.2.2
+    · exact h
+  | cleanup =>
+    rw [step_cleanup]
+    split
+    · intro _ hc
+      simp only [] at hc
+      rw [cleanup_cleaned] at hc
+      simp at hc
+    · exact h
+
 end UvModel.FsReq
